@@ -119,6 +119,13 @@ func runEngineCase(r *rng, caseID string, g genOpts, o engineOpts) map[string]an
 }
 
 func execEngineCase(caseID string, wf *AWf, text string, beh map[string]Behaviour, input map[string]any, o engineOpts) map[string]any {
+	return execEngineCaseTimeout(caseID, wf, text, beh, input, o, 25*time.Second)
+}
+
+// execEngineCaseTimeout: as execEngineCase; when Execute has not returned after `limit` the caller's context is cancelled so
+// that the process can go on (recorded as returned = false).
+func execEngineCaseTimeout(caseID string, wf *AWf, text string, beh map[string]Behaviour, input map[string]any, o engineOpts,
+	limit time.Duration) map[string]any {
 	s := newScript()
 	for k, v := range beh {
 		s.set(k, v)
@@ -179,8 +186,13 @@ func execEngineCase(caseID string, wf *AWf, text string, beh map[string]Behaviou
 		if rr.pan != "" {
 			out["panic"] = rr.pan
 		}
-	case <-time.After(25 * time.Second):
+	case <-time.After(limit):
 		out["dump"] = goroutineDump()
+		cancel()
+		select {
+		case <-resCh:
+		case <-time.After(15 * time.Second):
+		}
 	}
 	out["wall_ms"] = time.Since(t0).Milliseconds()
 	if !cancelAt.IsZero() {
@@ -202,11 +214,12 @@ func execEngineCase(caseID string, wf *AWf, text string, beh map[string]Behaviou
 
 func cmdEngine(args []string) int {
 	var cancelMode string
-	var hang, evalFail bool
+	var hang, evalFail, allTags bool
 	c, _ := parseCommon("engine", args, func(fs *flag.FlagSet) {
 		fs.StringVar(&cancelMode, "cancel", "none", "none|random: cancel the context at a random instant")
 		fs.BoolVar(&hang, "hang", false, "allow never-finishing steps")
 		fs.BoolVar(&evalFail, "evalfail", false, "generate expressions that may fail to evaluate at run time")
+		fs.BoolVar(&allTags, "tags", false, "every workflow uses the optional / one-of / or-disabled tags")
 	})
 	w := openOut(c.out)
 	defer w.close()
@@ -221,6 +234,10 @@ func cmdEngine(args []string) int {
 			stopIf: cr.chance(1, 4), waitFor: cr.chance(1, 2), evalFail: evalFail}
 		if c.tier == "thorough" {
 			g.maxSteps = 3 + cr.intn(10)
+		}
+		if allTags {
+			g.tags = true
+			g.enabled = cr.chance(2, 3)
 		}
 		o := engineOpts{cancelAfterMs: -1, hang: hang}
 		if cancelMode == "random" {
@@ -244,4 +261,65 @@ func closureOf(wf *AWf) map[string]int {
 		}
 	}
 	return out
+}
+
+func init() { register("prompt", cmdPrompt) }
+
+// prompt: shapes for the promptness clause of C01/C03: no declared output can be produced any more while an unrelated step
+// never finishes; the run must end with an error promptly.  `kind` selects why the output became impossible.
+func cmdPrompt(args []string) int {
+	c, _ := parseCommon("prompt", args, nil)
+	w := openOut(c.out)
+	defer w.close()
+	r := newRng(c.seed)
+	kinds := []string{"producer-error", "producer-crash", "producer-deploy-fail", "needs-crashed-of-succeeding-step",
+		"needs-closed-of-succeeding-step", "needs-deploy-failed-of-succeeding-step", "wait-optional-on-crashed-of-succeeding-step"}
+	for i := 0; i < c.n; i++ {
+		cr := r.fork()
+		if i < c.skip {
+			continue
+		}
+		w.emit(map[string]any{"kind": "begin", "index": i})
+		kind := kinds[i%len(kinds)]
+		wf := &AWf{Outputs: map[string]AIn{}, InputFields: []AField{{Name: "name", Type: "string", Required: true}}}
+		wf.Steps = []AStep{
+			{ID: "a", Kind: "plugin", PlugStep: "op", Src: "a", Fields: map[string]AIn{"input": amap("s", lit("x"))}},
+			{ID: "h", Kind: "plugin", PlugStep: "op", Src: "h", Fields: map[string]AIn{"input": amap("s", lit("y")),
+				"closure_wait_timeout": lit("100")}},
+		}
+		for k := 0; k < cr.intn(3); k++ { // unrelated bystanders that finish
+			id := fmt.Sprintf("b%d", k)
+			wf.Steps = append(wf.Steps, AStep{ID: id, Kind: "plugin", PlugStep: "op", Src: id, Fields: map[string]AIn{"input": amap("s", lit("z"))}})
+		}
+		beh := map[string]Behaviour{"h": {Outcome: "hang"}, "a": {Outcome: "success", DelayMs: cr.intn(10)}}
+		out := AIn{K: "map"}
+		switch kind {
+		case "producer-error":
+			beh["a"] = Behaviour{Outcome: "error"}
+			out.put("v", expr("$.steps.a.outputs.success.s"))
+		case "producer-crash":
+			beh["a"] = Behaviour{Outcome: "crash"}
+			out.put("v", expr("$.steps.a.outputs.success.s"))
+		case "producer-deploy-fail":
+			beh["a"] = Behaviour{Outcome: "success", DeployFail: true}
+			out.put("v", expr("$.steps.a.outputs.success.s"))
+		case "needs-crashed-of-succeeding-step":
+			out.put("v", expr("$.steps.a.crashed.error"))
+		case "needs-closed-of-succeeding-step":
+			out.put("v", expr("$.steps.a.closed.result"))
+		case "needs-deploy-failed-of-succeeding-step":
+			out.put("v", expr("$.steps.a.deploy_failed.error"))
+		default:
+			out.put("v", AIn{K: "optional", Wait: true, Src: "$.steps.a.crashed.error.output"})
+			out.put("w", expr("$.steps.a.outputs.success.s"))
+		}
+		wf.OutputIDs = []string{"result"}
+		wf.Outputs["result"] = out
+		res := execEngineCaseTimeout(fmt.Sprintf("prompt-%d-%d", c.seed, i), wf, wf.yaml(nil, nil), beh,
+			map[string]any{"name": "nm"}, engineOpts{cancelAfterMs: -1}, 4*time.Second)
+		res["kind"] = "prompt"
+		res["shape"] = kind
+		w.emit(res)
+	}
+	return 0
 }
